@@ -133,6 +133,7 @@ class AbstractAst:
         if not isinstance(parser, Parser):
             raise RTAMTException('{} is not ANTRL4 Parser'.format(parser.__class__.__name__))
         if self.parserErrorListenerType != None:
+            lexer._listeners = [self.parserErrorListenerType()]
             parser._listeners = [self.parserErrorListenerType()]
             if not isinstance(parser._listeners[0], ErrorListener):
                 raise RTAMTException('{} is not ANTRL4 ErrorListener'.format(parser._listeners[0].__class__.__name__))
